@@ -161,6 +161,7 @@ fn install_and_check(ctx: &Ctx, rng: &mut Rng, is128: bool, path: &str, st: &mut
     let mut cfg = Cfg::of(is128);
     cfg.sound = false;
     cfg.fastload = true;
+    cfg.init_mode = rng.below(4) as u8;
     let mut m = Machine::new(cfg);
     quiet(&mut m);
     m.run_frames(rng.below(3) as usize);
@@ -406,7 +407,16 @@ fn install_and_check(ctx: &Ctx, rng: &mut Rng, is128: bool, path: &str, st: &mut
         _ => unreachable!(),
     }
     let quiet_frames = 2 + rng.below(3) as usize;
-    m.run_frames(quiet_frames);
+    if rng.chance(1, 4) && m.clock() < 100 {
+        // the quiet frames pass the way a debugging, fast-forwarding host runs them
+        if let Err(e) = m.run_frames_bp_then_max(quiet_frames) {
+            ctx.inconclusive(&format!("C08: mixed-speed driving could not be set up: {}", e));
+            return;
+        }
+        note = format!("{} [frames run as FrameCount(n)+breakpoint, then Max]", note);
+    } else {
+        m.run_frames(quiet_frames);
+    }
     st.frames += quiet_frames as u64;
     st.screens += 1;
     st.paths.insert(format!("{}:{}", is128, path));
